@@ -47,6 +47,12 @@ impl EvaluatedPaths {
     }
 }
 
+/// Baseline key of a result path. A path that is not valid UTF-8 has none: its lossy form can
+/// coincide with that of another file, so such a path is never recorded and never matches an entry.
+pub(crate) fn baseline_key(path: &Path) -> Option<String> {
+    path.to_str().map(path_key)
+}
+
 pub fn load_baseline(baseline_path: Option<&Path>) -> crate::Result<Option<Baseline>> {
     let Some(path) = baseline_path else {
         return Ok(None);
@@ -81,8 +87,7 @@ pub fn apply_baseline_comparison(results: &mut [CheckResult], baseline: &Baselin
             continue;
         }
 
-        let path_str = path_key(&result.path().to_string_lossy());
-        if baseline.contains(&path_str) {
+        if baseline_key(result.path()).is_some_and(|key| baseline.contains(&key)) {
             // Replace the result with its grandfathered version
             let owned = std::mem::replace(
                 result,
@@ -135,7 +140,13 @@ pub fn update_baseline_from_results(
             continue;
         }
 
-        let path_str = path_key(&result.path().to_string_lossy());
+        let Some(path_str) = baseline_key(result.path()) else {
+            crate::output::print_warning(&format!(
+                "not recorded in the baseline (path is not valid UTF-8): {}",
+                result.path().display()
+            ));
+            continue;
+        };
         let is_structure = is_structure_violation_result(result);
 
         // Apply mode filtering
@@ -237,7 +248,7 @@ pub fn check_baseline_ratchet(results: &[CheckResult], baseline: &Baseline) -> R
     let current_failures: HashSet<String> = results
         .iter()
         .filter(|r| r.is_failed() || r.is_grandfathered())
-        .map(|r| path_key(&r.path().to_string_lossy()))
+        .filter_map(|r| baseline_key(r.path()))
         .collect();
 
     // Find baseline entries that are no longer violations
